@@ -1,9 +1,9 @@
 SPECIFICATION ISpec
 CONSTANTS
   Procs = {1,2}
-  Objs = {1}
+  Objs = {1,2}
   Keys = {1,2}
-  MaxCalls = 3
+  MaxCalls = 2
   Variant = "ok"
   Algo = "sf"
 INVARIANTS FnStartOK FnEndOK CallEndOK WaitOK OneExecPerKey WellFormed
